@@ -181,6 +181,7 @@ impl Recorder {
         let lead = ["", "", "", "(", "\"", "'", "[", "\"("];
         let trail = ["", "", "", ")", "\"", "'", ".", "?", ",", ")\"", ":", "!"];
 
+        self.flip_retype(_shard, _shards);
         for _ in 0..rounds {
             clean_home(&self.home);
             let mut stamp = 1u64;
@@ -201,12 +202,20 @@ impl Recorder {
             let mut boundary = true; // the next returned suggestion is the first after a terminating event / update / restart
             let mut dead = false;
             let words = 14 + self.rng.below(14);
+            // the words of this session (per method and layout), to be typed AGAIN after a re-configuration or a restart:
+            // whatever the context remembers about a word it has seen must not outlive the configuration it was computed under
+            let mut history: Vec<(String, Vec<(u16, u8)>)> = Vec::new();
+            let mut retype = false;
             'session: for _ in 0..words {
                 // ----- the key events of one "word"
                 let phon = cfg.is_phonetic();
                 let mut plan: Vec<(u16, u8)> = Vec::new();
                 let r = self.rng.below(10);
-                if r < 7 {
+                let again: Vec<&(String, Vec<(u16, u8)>)> = history.iter().filter(|(l, _)| *l == cfg.layout).collect();
+                if (retype || self.rng.below(8) == 0) && !again.is_empty() {
+                    plan = again[self.rng.below(again.len())].1.clone();
+                    retype = false;
+                } else if r < 7 {
                     if phon {
                         let mut t = self.rng.pick(&ppool).clone();
                         if self.rng.below(3) == 0 {
@@ -230,9 +239,13 @@ impl Recorder {
                 } else {
                     for _ in 0..(1 + self.rng.below(7)) {
                         let code = if self.rng.below(10) < 7 { *self.rng.pick(&letters) } else { *self.rng.pick(&all) };
-                        let m = match self.rng.below(10) { 0 => 1u8, 1 => 2, 2 => 3, 3 => 0x82, _ => 0 };
+                        // (any modifier byte: Shift / AltGr bits, stray bits in every position)
+                        let m = match self.rng.below(12) { 0 => 1u8, 1 => 2, 2 => 3, 3 => 0x82, 4 => 4, 5 => 6, 6 => self.rng.below(256) as u8, _ => 0 };
                         plan.push((code, m));
                     }
+                }
+                if history.len() < 40 && !plan.is_empty() {
+                    history.push((cfg.layout.clone(), plan.clone()));
                 }
                 let mut i = 0usize;
                 let mut guard = 0;
@@ -346,6 +359,7 @@ impl Recorder {
                     cfg = c2;
                     self.emit(json!({"ev": "update", "cfg": cfg_json(&cfg), "ongoing": o.ongoing, "panic": o.panic.clone().unwrap_or_default()}));
                     if o.kind == "panic" { dead = true; break 'session; }
+                    retype = self.rng.below(3) < 2;
                 } else if b == 2 {
                     // restart: a new context over the same user-data directory
                     drop(ctx);
@@ -358,9 +372,81 @@ impl Recorder {
                         }
                     };
                     self.emit(json!({"ev": "new", "cfg": cfg_json(&cfg), "restart": true}));
+                    retype = self.rng.below(3) < 2;
                 }
             }
             let _ = dead;
+        }
+    }
+
+    /// Directed: every single option flipped by update-engine on an idle context (and flipped back), with the SAME word typed
+    /// before the update, after it and after the flip back - compared with a brand-new context each time.  Both methods with
+    /// suggestions on, words whose lists depend on the options (completions with ু ূ ৃ, wrapped words, emoji names, emoticons).
+    fn flip_retype(&mut self, shard: usize, shards: usize) {
+        let base = |phon: bool| Cfg {
+            layout: if phon { "phonetic".into() } else { "probhat".into() }, psug: phon, fsug: !phon, english: true, ansi: false, smart: false,
+            vowel: true, chandra: true, kar: false, reph: true, numpad: true, karorder: false, db: true,
+        };
+        let mut n = 0usize;
+        for phon in [true, false] {
+            let cfg0 = base(phon);
+            let plans: Vec<Vec<(u16, u8)>> = if phon {
+                ["amar", "sesh", "help", ":)", "\"a\"", "(kkhet)", "onnogulo", "1"].iter()
+                    .map(|t| t.chars().filter_map(|c| self.keys.code_for_char(c)).map(|c| (c, 0u8)).collect()).collect()
+            } else {
+                let inv = LayoutInv::load(&cfg0, &self.keys);
+                let mut v: Vec<Vec<(u16, u8)>> = Vec::new();
+                for w in ["\u{09B2}\u{099C}\u{09CD}\u{099C}\u{09BE}", "\u{09AC}\u{09A8}\u{09CD}\u{09A7}", "\u{0995}\u{09AE}", "\u{09A6}\u{09BE}\u{09B0}",
+                          "\"\u{0995}\u{09B2}\"", "\u{09B9}\u{09BE}\u{09B8}\u{09BF}", "\u{09E7}"] {
+                    let p: Vec<(u16, u8)> = w.chars().filter_map(|c| inv.key_for_value(&c.to_string())).collect();
+                    if p.len() == w.chars().count() {
+                        v.push(p);
+                    }
+                }
+                v.push(":)".chars().filter_map(|c| self.keys.code_for_char(c)).map(|c| (c, 0u8)).collect());
+                v
+            };
+            for flip in 0..11 {
+                let mut c1 = cfg0.clone();
+                match flip {
+                    0 => c1.english = !c1.english, 1 => c1.smart = !c1.smart, 2 => c1.ansi = !c1.ansi, 3 => c1.kar = !c1.kar, 4 => c1.vowel = !c1.vowel,
+                    5 => c1.chandra = !c1.chandra, 6 => c1.reph = !c1.reph, 7 => c1.numpad = !c1.numpad, 8 => c1.karorder = !c1.karorder,
+                    9 => c1.psug = !c1.psug, _ => c1.fsug = !c1.fsug,
+                }
+                for plan in &plans {
+                    n += 1;
+                    if n % shards.max(1) != shard % shards.max(1) {
+                        continue;
+                    }
+                    clean_home(&self.home);
+                    let mut ctx = match Ctx::new(&cfg0, &self.home) { Ok(c) => c, Err(_) => continue };
+                    self.emit(json!({"ev": "new", "cfg": cfg_json(&cfg0)}));
+                    let mut cur = cfg0.clone();
+                    'passes: for pass in 0..3 {
+                        if pass > 0 {
+                            cur = if pass == 1 { c1.clone() } else { cfg0.clone() };
+                            let o = ctx.update(&cur);
+                            self.emit(json!({"ev": "update", "cfg": cfg_json(&cur), "ongoing": o.ongoing, "panic": o.panic.clone().unwrap_or_default()}));
+                            if o.kind == "panic" { break 'passes; }
+                        }
+                        let mut w = Word::new();
+                        for (i, (code, m)) in plan.iter().enumerate() {
+                            let o = ctx.key(*code, *m, 0);
+                            if o.kind == "panic" {
+                                self.emit(merge(json!({"ev": "key", "code": code, "mod": m, "sel": 0, "fresh": "na", "fwhat": ""}), Self::ret_fields(&o)));
+                                break 'passes;
+                            }
+                            let ch = self.keys.char_for_code(*code);
+                            if cur.is_phonetic() { if let Some(c) = ch { w.comp.push(c); } } else { w.keys.push((*code, *m)); }
+                            let (f, what) = if i + 1 == plan.len() || i == 0 { self.shadow_compare(&cur, &w, &o, true, 0) } else { ("skip", String::new()) };
+                            self.emit(merge(json!({"ev": "key", "code": code, "mod": m, "sel": 0, "fresh": f, "fwhat": what}), Self::ret_fields(&o)));
+                        }
+                        let o = ctx.finish();
+                        self.emit(json!({"ev": "finish", "ongoing": o.ongoing, "panic": o.panic.clone().unwrap_or_default()}));
+                        if o.kind == "panic" { break 'passes; }
+                    }
+                }
+            }
         }
     }
 
